@@ -85,7 +85,7 @@ def run_case(case, env):
         if st == 'timeout':
             out['viol'].append(viol('no-result-within-budget', site, {'word': w, 'limit': L, 'ticks': ticks}))
             dig.append('T')
-            continue
+            break       # one exceeded budget per case is enough
         if st == 'exc':
             out['viol'].append(viol('exception', site, {'word': w, 'limit': L, 'exc': val}))
             dig.append('E')
